@@ -2,14 +2,17 @@
    case := (0 hmode names conscodes ops results)   operation sequence on one vector and its curried views
          | (1 tuples children)                      final-state figures of a stress run
          | (2 bytes valid)                          utf8.ValidString micro-correspondence
-         | (3 hmode names progs sched results flags)  one explored interleaving of concurrent callers:
+         | (3 hmode names progs sched results flags times)  one explored interleaving of concurrent callers:
              progs per thread ((0 tuple) | (1 tuple) | (2 labels) | (3)), sched = thread ids in the order
-             their critical sections (RLock / Lock) were granted, results per thread in program order
+             their critical sections (RLock / Lock) were granted, results per thread in program order,
+             times per thread ((inv res) ...) = scheduler step counts at invocation and response
+         | (4 names progs results times)             a free-running race of real goroutines on a small
+             program; times from an atomic logical clock (ticked before invocation and after response)
    op     := (0 v must lvs) | (1 v must labels) | (2 v must labels) | (3 v lvs) | (4 v labels)
            | (5 v labels) | (6 v) | (7 v)           labels := ((name value) ...)
    result := (0 id) | (1 err panicked) | (2 bool) | (3 n) | (4) | (5 ((values id) ...)) | (6) *)
 From Coq Require Import ZArith List Bool Arith.
-From Verif Require Import Base.Str Base.Sx Gen.Gen_Consts Model.Vec.
+From Verif Require Import Base.Str Base.Sx Gen.Gen_Consts Base.Conc Model.CounterGauge Model.Vec Model.VecConc.
 Import ListNotations.
 Open Scope Z_scope.
 
@@ -140,12 +143,46 @@ Fixpoint sched_fits (H : values -> Z) (c : cstate) (sched : list nat) : bool :=
     end
   end.
 
-(* 0: the schedule fits, the implementation's results are the model's (hence linearizable, theorem
-   vec_concurrent_linearizable); 2: the scheduler reported a deadlock/panic, or NO interleaving of the
-   calls explains the results on the plain map; 1: otherwise (results or lock structure differ from
-   the model, but some sequential explanation exists) *)
+(* the implementation's history as calls with invocation and response times *)
+Definition dummyH : values -> Z := fun _ => 0.
+Fixpoint thread_calls (tid idx : Z) (ops : list creq) (rs : list result) (ts : list (Z * Z))
+  : option (list (Conc.call (vec_machine dummyH))) :=
+  match ops, rs, ts with
+  | [], [], [] => Some []
+  | o :: ops', r :: rs', (i, e) :: ts' =>
+      match thread_calls tid (idx + 1) ops' rs' ts' with
+      | Some l => Some (Conc.mkCall (M := vec_machine dummyH) tid idx o r i e :: l)
+      | None => None
+      end
+  | _, _, _ => None
+  end.
+Fixpoint all_calls (tid : Z) (progs : list (list creq)) (res : list (list result)) (times : list (list (Z * Z)))
+  : option (list (Conc.call (vec_machine dummyH))) :=
+  match progs, res, times with
+  | [], [], [] => Some []
+  | p :: progs', r :: res', t :: times' =>
+      match thread_calls tid 0 p r t, all_calls (tid + 1) progs' res' times' with
+      | Some a, Some b => Some (a ++ b)
+      | _, _ => None
+      end
+  | _, _, _ => None
+  end.
+
+(* real-time linearizability of the implementation's history (None: some call did not complete) *)
+Definition impl_linearizable (progs : list (list creq)) (res : list (list result)) (times : list (list (Z * Z))) : bool :=
+  match all_calls 0 progs res times with
+  | Some h => forallb (fun k => Conc.c_inv k <=? Conc.c_res k) h && vec_lin_check dummyH h
+  | None => false
+  end.
+
+(* 0: the implementation's history is linearizable in real time, the schedule fits the model's
+   critical sections and the results are the model's; 2: the scheduler reported a deadlock/panic, or NO
+   order of the calls that respects real time (a call that returned before another was invoked comes
+   first) is explained by the plain map (vec_lin_check; sound by theorem vec_lin_check_sound, accepts
+   every history of the model by vec_lin_check_complete); 1: linearizable, but results or lock structure
+   differ from the model *)
 Definition check_sched (hm : Z) (names : list str) (progs : list (list creq)) (sched : list nat)
-           (res : list (list result)) (flags : Z) : Z :=
+           (res : list (list result)) (flags : Z) (times : list (list (Z * Z))) : Z :=
   let H := Hfold fnv_offset64 (hmode_add hm) (hmode_addb hm) in
   let hist := snd (crun H (cinit_run progs) sched) in
   let model_good :=
@@ -155,9 +192,10 @@ Definition check_sched (hm : Z) (names : list str) (progs : list (list creq)) (s
                         events_eqb hist ih && lin_ok init_sworld ih
     | None => false
     end in
-  if model_good && (flags =? 0) then code_ok
-  else if negb (flags =? 0) || negb (sc_explains progs res) then code_spec_violation
-  else code_model_mismatch.
+  let spec_good := (flags =? 0) && impl_linearizable progs res times in
+  if negb spec_good then code_spec_violation
+  else if negb model_good then code_model_mismatch
+  else code_ok.
 
 Definition d_triple (s : sx) : option (Z * Z * Z) := dT3 dZ dZ dZ s.
 
@@ -180,11 +218,20 @@ Definition check (s : sx) : Z :=
       | Some b, Some v => both true (Bool.eqb (utf8_valid b) v)
       | _, _ => code_decode_error
       end
-  | SL [SZ 3; SZ hm; nm; progs; sched; res; SZ flags] =>
+  | SL [SZ 3; SZ hm; nm; progs; sched; res; SZ flags; times] =>
       match dL dStr nm with
       | Some nm =>
-          match dL (dL (d_creq nm)) progs, dL dNat sched, dL (dL d_result) res with
-          | Some progs, Some sched, Some res => check_sched hm nm progs sched res flags
+          match dL (dL (d_creq nm)) progs, dL dNat sched, dL (dL d_result) res, dL (dL (dP dZ dZ)) times with
+          | Some progs, Some sched, Some res, Some times => check_sched hm nm progs sched res flags times
+          | _, _, _, _ => code_decode_error
+          end
+      | None => code_decode_error
+      end
+  | SL [SZ 4; nm; progs; res; times] =>
+      match dL dStr nm with
+      | Some nm =>
+          match dL (dL (d_creq nm)) progs, dL (dL d_result) res, dL (dL (dP dZ dZ)) times with
+          | Some progs, Some res, Some times => both (impl_linearizable progs res times) true
           | _, _, _ => code_decode_error
           end
       | None => code_decode_error
@@ -225,7 +272,7 @@ Definition explain (s : sx) : sx :=
       | None => SL []
       end
   | SL [SZ 2; bytes; _] => match dStr bytes with Some b => SL [eB (utf8_valid b)] | None => SL [] end
-  | SL [SZ 3; SZ hm; nm; progs; sched; _; _] =>
+  | SL [SZ 3; SZ hm; nm; progs; sched; _; _; _] =>
       match dL dStr nm with
       | Some nm =>
           match dL (dL (d_creq nm)) progs, dL dNat sched with
